@@ -40,6 +40,9 @@ type Result struct {
 	Classes []string
 	// Counters are summed over all cases (e.g. number of schedules explored inside a case).
 	Counters map[string]int64
+	// ReplayCase, when set, is saved instead of the generated case when the case fails (used by
+	// enumerating executors to pin the failing element of the enumeration).
+	ReplayCase any `json:"-"`
 	// Trace is an optional human-readable account of the execution, saved with failures.
 	Trace []string
 }
@@ -214,6 +217,9 @@ type failFile struct {
 }
 
 func dumpFailure(prop, part string, caseVal any, r *Result) string {
+	if r.ReplayCase != nil {
+		caseVal = r.ReplayCase
+	}
 	b, _ := json.Marshal(caseVal)
 	ff := failFile{Property: prop, Part: part, Message: r.Fail, Case: b, Trace: r.Trace}
 	out, _ := json.MarshalIndent(ff, "", " ")
